@@ -923,6 +923,20 @@ theorem source_branch_selection (E : Ellipsoid ℝ) (v : V3 ℝ) :
     · simp [h, runSel, Midgard.Generated.TrsSelect.prog2d, Midgard.Generated.TrsSelect.prog1d, SelMask.holds]
     · simp [h, runSel, Midgard.Generated.TrsSelect.prog2d, Midgard.Generated.TrsSelect.prog1d, SelMask.holds]
 
+/-- **the explicit `ellipsoid=` argument decides** in the public wrappers `transformation.trs2llh` / `llh2trs` (rule
+regenerated from their source): given, it is used whatever the array argument carries; not given, the ellipsoid carried
+by a position argument is used; for a plain array the default (GRS80); and the kernel is called with the resolved one -/
+theorem explicit_ellipsoid_decides :
+    (∀ order ∈ [Midgard.Generated.TrsSelect.resolveTrs2llh, Midgard.Generated.TrsSelect.resolveLlh2trs],
+      (∀ e c, resolveEllipsoid order (some e) c = some e) ∧
+      (∀ c, resolveEllipsoid order none (some c) = some c) ∧
+      resolveEllipsoid order none none = some defaultEll) ∧
+    Midgard.Generated.TrsSelect.kernelGetsResolved = true := by
+  refine ⟨?_, by decide⟩
+  intro order ho
+  simp only [List.mem_cons, List.mem_nil_iff, or_false] at ho
+  rcases ho with rfl | rfl <;> exact ⟨fun _ _ => rfl, fun _ => rfl, rfl⟩
+
 theorem delta_empty_from_forwards :
     (∀ s ∈ Midgard.Generated.EllipsoidArith.deltaEmptyFrom, s.2 = ExtFwd.keep) ∧ Midgard.Generated.EllipsoidArith.deltaEmptyFrom ≠ [] := by decide
 
@@ -988,3 +1002,4 @@ end Midgard.Props.C05
 #print axioms Midgard.Props.C05.source_branch_selection
 #print axioms Midgard.Props.C05.delta_empty_from_forwards
 #print axioms Midgard.Props.C05.halley_third_order_partial
+#print axioms Midgard.Props.C05.explicit_ellipsoid_decides
